@@ -41,6 +41,11 @@ def strategy(draw):
             mt = draw(st.sampled_from(cands))
             k = draw(st.integers(0, len(mt["res_edges"]) - 1))
             spec["broken"] = {"mol": mt["name"], "edge": mt["res_edges"][k]}
+            r1, r2 = mt["res_edges"][k]
+            if len(mt["residues"][r1]["atoms"]) + len(mt["residues"][r2]["atoms"]) >= 3 and draw(st.booleans()):
+                # the two parts still share an angle: that is no connection
+                mt["angle_only_edges"] = [[r1, r2]]
+                spec["broken"]["angle"] = True
             mt["res_edges"] = [e for i, e in enumerate(mt["res_edges"]) if i != k]
     if mode != "connected" and draw(st.integers(0, 2)) > 0:
         # the disconnected molecule is not the first one of [ molecules ]: an intact copy of the same
